@@ -12,12 +12,12 @@ SHARDS = {"quick": 8, "thorough": 16}
 TIMEOUT = {"quick": 900, "thorough": 3000}
 MIN_EVALUATIONS = {"quick": 4000, "thorough": 4000}  # fewer oracle evaluations than this means the workload collapsed: inconclusive
 RULE = ("request kinds {generic connected / UCMM / Unconnected Send, single read, single write, bit write (read-modify-write), 3-fragment read "
-        "and write with the fault on each fragment position, multi-service read/write with every per-service status vector of length <= 4 over "
+        "and write with the fault on each fragment position, SLC/PCCC read and write, multi-service read/write with every per-service status vector of length <= 4 over "
         "{0,4,5,6,0xFF}, register session, list identity, symbol-list page, template attribute and template read during upload} x general "
         "status 0..255 x extended-status size {0,1,2 words} (table values + random) -> truthy exactly for status 0 (6 only for continuing "
         "services), otherwise falsy with non-empty error text naming the status (table text or hex code, extended text when the pair is in "
         "the table); header-only encapsulation errors {1,2,3,0x64,0x65,0x69}; every truncation length of each kind's valid reply; seeded random "
-        "byte corruptions: public calls may raise only library exceptions and a reply too short for its status words is never a success. "
+        "byte corruptions; multi-service replies whose service count / offset table do not match the replies that follow: public calls may raise only library exceptions and a reply too short for its status words is never a success. "
         "distinct = (request kind, fault class, status | truncation length class) evaluated")
 ASSUMPTIONS = [
     "status 6 on Get_Attribute_List (0x03), Multiple Service Packet (0x0A) and Write Tag Fragmented (0x53) replies: 'legitimately continues' is arguable, not judged",
@@ -32,7 +32,7 @@ ANCHORS = [
     ("pycomm3/packets/logix.py", "ReadTagFragmentedResponsePacket._parse_reply"), ("pycomm3/packets/logix.py", "MultiServiceResponsePacket._parse_reply"),
     ("pycomm3/logix_driver.py", "LogixDriver._send_requests"), ("pycomm3/cip/services.py", "Services.from_reply"),
 ]
-KINDS = ["gm_conn", "gm_ucmm", "gm_usend", "read1", "write1", "rmw", "readfrag", "writefrag", "multi-read", "multi-write"]
+KINDS = ["gm_conn", "gm_ucmm", "gm_usend", "read1", "write1", "rmw", "readfrag", "writefrag", "multi-read", "multi-write", "slc-read", "slc-write"]
 CONTINUING_DONT_CARE = {0x03, 0x0A, 0x53}
 
 
@@ -54,6 +54,10 @@ def do(sc, kind, rng):
         return b.call(kind, d.generic_message, service=0x0E, class_code=0x01, instance=1, attribute=1, connected=False)
     if kind == "gm_usend":
         return b.call(kind, d.generic_message, service=0x0E, class_code=0x01, instance=1, attribute=1, connected=False, unconnected_send=True)
+    if kind == "slc-read":
+        return b.call(kind, d.read, "N7:3")
+    if kind == "slc-write":
+        return b.call(kind, d.write, ("N7:4", 5))
     if kind == "read1":
         return b.call(kind, d.read, "d1")
     if kind == "write1":
@@ -73,7 +77,34 @@ def do(sc, kind, rng):
 
 def service_of(kind):
     return {"gm_conn": 0x01, "gm_ucmm": 0x0E, "gm_usend": 0x0E, "read1": 0x4C, "write1": 0x4D, "rmw": 0x4E, "readfrag": 0x52, "writefrag": 0x53,
-            "multi-read": 0x0A, "multi-write": 0x0A}[kind]
+            "multi-read": 0x0A, "multi-write": 0x0A, "slc-read": 0x4B, "slc-write": 0x4B}[kind]
+
+
+class SLCScenario:
+    """SLCDriver opened against the reference SLC target; same surface as LogixScenario as far as this check uses it"""
+
+    def __init__(self, rng):
+        import pycomm3
+        from vlib.bench import Bench
+        from vlib import refslc, reftarget as rt
+        self.rng, self.label = rng, "slc"
+        self.b = Bench(rng)
+        self.dev = refslc.SLCDevice(rt.Identity(name="1747-L552/C SLC 5/05"), rng, self.b.log, refslc.DataTable.random(rng))
+        self.dev.finish_transfers = lambda: None
+        self.target = rt.RefTarget(rng, front=self.dev, routes={((1, 0),): self.dev}, policy=rt.Policy(), log=self.b.log)
+        self.b.set_target(self.target)
+        self.drv = pycomm3.SLCDriver(self.b.host)
+        self.opened = self.b.call("open", self.drv.open)
+        self.warm = self.b.call("read", self.drv.read, "N7:0")  # SLCDriver opens its CIP connection lazily, on the first request
+
+    def ok(self):
+        return self.opened[0] == "ok" and bool(self.opened[1]) and self.warm[0] == "ok" and bool(self.warm[1])
+
+    def close(self):
+        try:
+            self.b.call("close", self.drv.close)
+        finally:
+            self.b.close()
 
 
 def truthy(out):
@@ -90,7 +121,9 @@ def run(ctx):
     PycommError = p.PycommError
     SERVICE_STATUS, EXTEND_CODES = p.SERVICE_STATUS, p.EXTEND_CODES
 
-    def fresh():
+    def fresh(kind=""):
+        if kind.startswith("slc"):
+            return SLCScenario(rng)
         sc = LogixScenario(rng, config=("fw32", 32, False, True), project=project(rng))
         sc.dev.read_frag = "full"
         return sc
@@ -118,13 +151,13 @@ def run(ctx):
         if not ctx.mine(work):
             continue
         try:
-            sc = fresh()
+            sc = fresh(kind)
             if not sc.ok():
                 res.violation("open-failed", f"open -> {sc.opened!r:.200}", None)
                 continue
             svc = service_of(kind)
             positions = [1] if kind not in ("readfrag", "writefrag") else [1, 2, 3]
-            for pos in positions:
+            for pos in positions * (1 if quick else 5):
                 for status in range(256):
                     ext_opts = [()]
                     tab = EXTEND_CODES.get(status, {})
@@ -135,8 +168,10 @@ def run(ctx):
                         ext_opts = ext_opts[:1] + ext_opts[-1:]
                     for ext in ext_opts:
                         cnt = {"n": 0}
+                        # an error reply may carry data after its status words (CIP Vol 1, 2-4.2); it is an error all the same
+                        errdata = b"" if rng.random() < 0.6 else bytes(rng.choice([0, 0, rng.randrange(256)]) for _ in range(rng.choice([2, 8, 20, 40])))
 
-                        def force(rq, status=status, ext=ext, cnt=cnt, pos=pos, svc=svc):
+                        def force(rq, status=status, ext=ext, cnt=cnt, pos=pos, svc=svc, errdata=errdata):
                             if rq.service != svc or rq.embedded:
                                 return None
                             cnt["n"] += 1
@@ -144,7 +179,7 @@ def run(ctx):
                                 return None
                             if status in (0, 6):
                                 return None if status == 0 else (6, ext, b"")
-                            return (status, ext, b"")
+                            return (status, ext, errdata)
                         if status == 6 and kind in ("readfrag",):
                             continue  # 6 is the normal 'more fragments follow' answer there
                         sc.dev.force_status = force
@@ -154,7 +189,7 @@ def run(ctx):
                         sc.b.log.violations.clear()
                         res.ev()
                         res.seen(kind, "status", status, len(ext), pos)
-                        wit = {"kind": kind, "status": status, "ext": ext, "position": pos}
+                        wit = {"kind": kind, "status": status, "ext": ext, "position": pos, "error_reply_data": errdata}
                         if st == "budget":
                             res.violation(f"nonterminating:{kind}", f"{kind} with status {status:#x}: {out}", wit)
                             raise ScenarioDead()
@@ -167,6 +202,10 @@ def run(ctx):
                             continue
                         if status == 6 and svc in CONTINUING_DONT_CARE:
                             res.dont_care("status-6-on-arguably-continuing-service")
+                            continue
+                        if status == 0x1E and kind.startswith("multi") and errdata:
+                            # 'embedded service error': the data IS the list of service replies, so random data decides each Tag
+                            res.dont_care("status-0x1e-multi-service-with-random-reply-data")
                             continue
                         if truthy(out):
                             res.violation(f"error-status-reported-as-success:{kind}", f"{kind}: the controller answered general status {status:#x} (ext {ext!r}, service position {pos}) but the result is truthy: {out!r:.200}", wit)
@@ -187,7 +226,7 @@ def run(ctx):
             continue
 
     # ---- per-service status vectors inside multi-service replies ----------------------------------------------------------------------
-    vals = [0, 4, 5, 6, 0xFF]
+    vals = [0, 4, 5, 6, 0xFF] if quick else [0, 1, 4, 5, 6, 0x13, 0x1E, 0xFF]
     vectors = [(a, b_, c, d_) for a in vals for b_ in vals for c in vals for d_ in vals]
     for kind in ("multi-read", "multi-write"):
         work += 1
@@ -241,23 +280,28 @@ def run(ctx):
                 faults.append((kind, pos, ("encap", est)))
             for n in list(range(0, 80)) + [90, 120]:
                 faults.append((kind, pos, ("trunc", n)))
-            for r_ in range(12 if quick else 60):
+            for r_ in range(12 if quick else 400):
                 faults.append((kind, pos, ("corrupt", r_)))
             # an ERROR reply (general status forced by the target) cut at every length around its status words
             for n in list(range(36, 56)):
                 faults.append((kind, pos, ("errtrunc", n)))
+    # structural damage of a multi-service reply: service count and offset table that do not match the replies that follow
+    for kind in ("multi-read", "multi-write"):
+        for v in ("count+1", "count-1", "count0", "countmax", "off-beyond", "off-zero", "off-into-table", "cut-last-2", "cut-last-reply", "drop-offsets"):
+            for r_ in range(1 if quick else 6):
+                faults.append((kind, 1, ("mstruct", v)))
     sc = None
     for fi, (kind, pos, fault) in enumerate(faults):
         if not ctx.mine(fi):
             continue
         try:
-            if sc is None or sc.b.dead or not getattr(sc.drv, "connected", False) or not sc.target.connections:
+            if sc is None or sc.b.dead or not getattr(sc.drv, "connected", False) or not sc.target.connections or isinstance(sc, SLCScenario) != kind.startswith("slc"):
                 if sc is not None:
                     try:
                         sc.close()
                     except ScenarioDead:
                         pass
-                sc = fresh()
+                sc = fresh(kind)
                 if not sc.ok():
                     sc = None
                     continue
@@ -289,6 +333,39 @@ def run(ctx):
                         return frame
                     cut = frame[:n]
                     return cut[:2] + (n - 24).to_bytes(2, "little") + cut[4:]
+                if fault[0] == "mstruct":
+                    f_, v = bytearray(frame), fault[1]
+                    if len(f_) < 62 or f_[46] != 0x8A:
+                        return frame
+                    res.count("multi-service-replies-damaged")
+                    cnt_ = f_[50] | (f_[51] << 8)
+                    offs = [f_[52 + 2 * i] | (f_[53 + 2 * i] << 8) for i in range(cnt_)]
+
+                    def relen(x):
+                        x[2:4] = (len(x) - 24).to_bytes(2, "little")
+                        x[42:44] = (len(x) - 44).to_bytes(2, "little")
+                        return bytes(x)
+                    if v == "count+1":
+                        f_[50:52] = (cnt_ + 1).to_bytes(2, "little")
+                    elif v == "count-1":
+                        f_[50:52] = (cnt_ - 1).to_bytes(2, "little")
+                    elif v == "count0":
+                        f_[50:52] = b"\x00\x00"
+                    elif v == "countmax":
+                        f_[50:52] = b"\xff\xff"
+                    elif v == "off-beyond":
+                        f_[52 + 2 * (cnt_ - 1):54 + 2 * (cnt_ - 1)] = (len(f_) - 50 + rng.choice([0, 1, 40])).to_bytes(2, "little")
+                    elif v == "off-zero":
+                        f_[54:56] = b"\x00\x00"
+                    elif v == "off-into-table":
+                        f_[52:54] = (3).to_bytes(2, "little")
+                    elif v == "cut-last-2":
+                        return relen(f_[:-2])
+                    elif v == "cut-last-reply":
+                        return relen(f_[:50 + offs[-1]])
+                    elif v == "drop-offsets":
+                        return relen(f_[:52])
+                    return bytes(f_)
                 if fault[0] == "encap":  # header-only encapsulation error reply
                     return frame[:2] + (0).to_bytes(2, "little") + frame[4:8] + fault[1].to_bytes(4, "little") + frame[12:24]
                 if fault[0] == "trunc":
@@ -336,6 +413,8 @@ def run(ctx):
             if state["orig"] is None:
                 continue
             status_off = 49 if kinds_of_reply == "unit" else 43
+            if kind.startswith("slc"):
+                status_off = 59  # the PCCC STS byte behind the requester id
             if fault[0] == "encap":
                 if truthy(out):
                     res.violation(f"encapsulation-error-reported-as-success:{kind}", f"{kind}: header-only encapsulation error {fault[1]:#x} -> {out!r:.200}", wit)
@@ -343,6 +422,17 @@ def run(ctx):
                     for t in (out if isinstance(out, list) else [out]):
                         if hasattr(t, "error") and (not t.error or not str(t.error).strip()):
                             res.violation(f"empty-error-text:{kind}:encap", f"{kind}: encapsulation error {fault[1]:#x} -> {t!r:.160}", wit)
+            elif fault[0] == "mstruct":
+                v = fault[1]
+                outs = out if isinstance(out, list) else [out]
+                if len(outs) != 4:
+                    res.violation(f"shape:{kind}:mstruct", f"{kind}: multi-service reply damaged ({v}) -> {out!r:.160} (4 Tags expected)", wit)
+                else:
+                    must_fail = {"count-1": [3], "count0": [0, 1, 2, 3], "cut-last-reply": [3], "drop-offsets": [0, 1, 2, 3], "cut-last-2": [3]}.get(v, [])
+                    for i in must_fail:
+                        if outs[i]:
+                            res.violation(f"missing-service-reply-reported-as-success:{kind}:{v}", f"{kind}: the multi-service reply ({v}) holds no complete answer for request {i}, yet its Tag is {outs[i]!r:.160}", wit)
+                            break
             elif fault[0] == "errtrunc":
                 if truthy(out):
                     res.violation(f"truncated-error-reply-reported-as-success:{kind}", f"{kind}: an error reply cut to {fault[1]} bytes -> {out!r:.200}", wit)
